@@ -53,10 +53,19 @@ def campaign(out, prop, items, mine, label=""):
         clauses = v["clauses"]
         if any(c.startswith("MACHINERY") for c in clauses):
             raise common.Machinery("campaign %s: %s" % (it["id"], clauses))
-        if "SKIP.crashed" in clauses:
-            out.skip("a run crashed (judged by C04)")
-            continue
         case = {"campaign": {k: it[k] for k in it if k != "id"}}
+        if "SKIP.crashed" in clauses:
+            bad = [(slot,) + by_id["%s.%s" % (it["id"], slot)] for slot in ("a", "b", "c") if slot in it
+                   and by_id["%s.%s" % (it["id"], slot)][1]["status"] != "ok"]
+            unknown = [(slot, r_) for slot, c_, r_ in bad if not pipeline.known_crash(c_, r_)]
+            if unknown:
+                # one of the related runs gave no output at all, at a call site that is not a recorded finding: the relation
+                # cannot hold
+                slot, r_ = unknown[0]
+                out.violation("%s.%s:%s@%s" % (prop, r_["status"], r_["exc"], r_["frame"]), case, "run %s of %s %s %s" % (slot, label, it["rel"], it.get("how", "")))
+            else:
+                out.skip("a run crashed at a call site recorded as a known finding of C04")
+            continue
         out.judge_clauses(clauses, case, mine, detail="%s %s %s" % (label, it["rel"], it.get("how", "")))
         out.sample({"campaign": it["id"], "rel": it["rel"], "how": it.get("how", ""), "triples": len(it["a"]["graph"]),
                     "cfg_a": {k: it["a"]["cfg"][k] for k in ("mode", "thr", "inverse", "keepLess", "cap")}, "clauses": clauses})
